@@ -48,6 +48,7 @@ type config struct {
 	CapMove      bool
 	CapNamespace bool
 	CapUnauth    bool
+	Sasl         bool
 }
 
 type line struct {
@@ -113,6 +114,8 @@ func srvCmdText(c string) string {
 		return "LOGIN u p"
 	case "AUTHENTICATE":
 		return "AUTHENTICATE PLAIN AHUAcA=="
+	case "AUTHENTICATE-X":
+		return "AUTHENTICATE XTEST eHRlc3Q="
 	case "ENABLE":
 		return "ENABLE IMAP4rev2"
 	case "CREATE", "DELETE", "SUBSCRIBE", "UNSUBSCRIBE", "SELECT", "EXAMINE":
@@ -448,6 +451,9 @@ func getServer(cfg config) *srvT {
 			if !ok {
 				return nil, nil, errors.New("harness: unknown connection")
 			}
+			if cfg.Sasl {
+				return v.(*connCtx).stub.WrapSASL(false), &imapserver.GreetingData{}, nil
+			}
 			return v.(*connCtx).stub, &imapserver.GreetingData{}, nil
 		},
 	}
@@ -627,7 +633,7 @@ func runServer(cs *caseT) *result {
 					caps = &capsObs{}
 					for _, t := range strings.Fields(ln)[2:] {
 						switch strings.ToUpper(t) {
-						case "AUTH=PLAIN":
+						case "AUTH=PLAIN", "AUTH=XTEST":
 							caps.Auth = true
 						case "LOGINDISABLED":
 							caps.LoginDis = true
@@ -1014,7 +1020,7 @@ func compareServer(cs *caseT, evs []event) *verdict {
 				w, c = exp.Resps[i], tagCmd(cs, exp.Resps[i].Tag)
 			}
 			sig := "plain-resp/" + c
-			if c == "LOGIN" || c == "AUTHENTICATE" {
+			if c == "LOGIN" || c == "AUTHENTICATE" || c == "AUTHENTICATE-X" {
 				sig = "auth-gating/" + c
 			}
 			return &verdict{sig, fmt.Sprintf("plaintext response #%d is %v, spec predicts %v", i+1, g, w)}
@@ -1262,7 +1268,7 @@ func cmdOne(path, tracePath string) {
 }
 
 var (
-	srvRandCmds = []string{"LOGIN", "NOOP", "CAPABILITY", "CREATE", "AUTHENTICATE", "DELETE", "SUBSCRIBE", "UNSUBSCRIBE",
+	srvRandCmds = []string{"LOGIN", "NOOP", "CAPABILITY", "CREATE", "AUTHENTICATE", "AUTHENTICATE-X", "DELETE", "SUBSCRIBE", "UNSUBSCRIBE",
 		"SELECT", "EXAMINE", "STATUS", "LIST", "LSUB", "RENAME", "ENABLE", "NAMESPACE", "CHECK", "UNSELECT", "CLOSE", "EXPUNGE",
 		"FETCH", "UID FETCH", "STORE", "COPY", "MOVE", "SEARCH", "LOGOUT", "XUNKNOWN", "STARTTLS", "UNAUTHENTICATE"}
 	cliRandPre    = []string{"EXISTS", "EXPUNGE", "CAPS", "OKTEXT"}
@@ -1274,7 +1280,7 @@ func randomCase(rng *rand.Rand) *caseT {
 	cs := &caseT{Real: true}
 	if rng.Intn(2) == 0 {
 		cs.Side = "server"
-		cs.Cfg = config{InsecureAuth: rng.Intn(2) == 0, HasTLSConfig: rng.Intn(4) != 0}
+		cs.Cfg = config{InsecureAuth: rng.Intn(2) == 0, HasTLSConfig: rng.Intn(4) != 0, Sasl: rng.Intn(2) == 0}
 		n := 0
 		tag := func() string { n++; return fmt.Sprintf("t%d", n) }
 		for i := rng.Intn(3); i > 0; i-- {
